@@ -25,7 +25,7 @@ def main():
         for d in sorted(base.glob("*")):
             if not (d / "patch.diff").exists():
                 continue
-            name = f"{prop}-{d.name}"
+            name = f"{prop}-{os.environ.get('SEED_TAG', '')}{d.name}"
             dest = SEEDED / name
             if dest.exists():
                 print(name, "already kept"); continue
